@@ -12,6 +12,7 @@ import (
 type Gen struct {
 	r     *rand.Rand
 	state map[string]interface{}
+	init  map[string]interface{}
 	ops   []Op
 }
 
@@ -39,13 +40,17 @@ func NewGen(r *rand.Rand) *Gen {
 	g.state["exp"] = int64(r.Intn(5))
 	g.state["boom"] = int64(0)
 	g.state["r"] = int64(0)
+	g.init = make(map[string]interface{}, len(g.state))
+	for k, v := range g.state {
+		g.init[k] = v // values are immutable snapshots
+	}
 	return g
 }
 
-// Init returns the initial values (to be called before any NextOp).
+// Init returns the initial values (the state before any operation).
 func (g *Gen) Init() map[string]interface{} {
-	m := make(map[string]interface{}, len(g.state))
-	for k, v := range g.state {
+	m := make(map[string]interface{}, len(g.init))
+	for k, v := range g.init {
 		m[k] = v
 	}
 	return m
